@@ -143,6 +143,8 @@ def oracle(poly, p, tol: Fraction):
     align = "level-vertex" if level_vertex else ("collinear-ext" if collinear_ext else "generic")
     if level_vertex and collinear_ext:
         align = "level-vertex+collinear-ext"
+    if not level_vertex and any(abs(float(v[1] - py)) <= 1e-7 for v in poly):
+        align = "near-level-vertex" + ("+collinear-ext" if collinear_ext else "")   # close to, but NOT at, a vertex level
     return exp, {"kind": kind, "align": align, "margin": margin, "cmin": cmin, "undecided": undecided,
                  "crossings": crossings}
 
@@ -497,6 +499,66 @@ def gen_points(rng, vs, tol, m):
     return pts
 
 
+LEVEL_OFFSETS = ("ulp+", "ulp-", 1e-12, -1e-12, 1e-10, -1e-10, 1e-8, -1e-8)
+
+
+def _off_level(vy, off):
+    """A y that is close to, but never equal to, the vertex level `vy`."""
+    if off == "ulp+" or off == "ulp-":
+        if vy == 0.0:
+            return 2.0 ** -80 if off == "ulp+" else -(2.0 ** -80)   # normal numbers instead of denormals
+        return math.nextafter(vy, math.inf if off == "ulp+" else -math.inf)
+    y = vy + off
+    if y == vy:
+        y = math.nextafter(vy, math.inf if off > 0 else -math.inf)
+    return y
+
+
+def _level_xs(vs, y):
+    """Abscissae where the horizontal line at height y meets the outline (floats; only used to place test points)."""
+    xs = []
+    for i in range(len(vs)):
+        a, b = vs[i - 1], vs[i]
+        if a[1] != b[1] and min(a[1], b[1]) <= y <= max(a[1], b[1]):
+            xs.append(a[0] + (y - a[1]) * (b[0] - a[0]) / (b[1] - a[1]))
+    return sorted(xs)
+
+
+def gen_near_level_points(rng, vs, n_vertices):
+    """Points whose y is 1 ulp / 1e-12 / 1e-10 / 1e-8 above or below a vertex level (never equal), with x to the left of
+    the outline, to the right of it, between consecutive crossings of that level, and just beside the vertex.  In exact
+    arithmetic these are ordinary points (py != vy is a strict fact), so the half-open vertex rule must NOT apply."""
+    allx = [v[0] for v in vs]
+    x0, x1 = min(allx), max(allx)
+    w = (x1 - x0) or 1.0
+    pts = []
+    idx = list(range(len(vs)))
+    rng.shuffle(idx)
+    for i in idx[:n_vertices]:
+        vx, vy = vs[i]
+        for off in LEVEL_OFFSETS:
+            y = _off_level(vy, off)
+            cr = _level_xs(vs, y)
+            mids = [(cr[k] + cr[k + 1]) / 2 for k in range(len(cr) - 1) if cr[k + 1] - cr[k] > 1e-3 * w]
+            cand = [x0 - 0.3 * w - 1.0 if rng.random() < 0.5 else x1 + 0.3 * w + 1.0,
+                    vx - rng.uniform(0.02, 0.3) * w if rng.random() < 0.7 else vx + rng.uniform(0.02, 0.3) * w]
+            if mids:
+                cand.append(rng.choice(mids))
+            pts += [(float(x), float(y)) for x in cand]
+    return pts
+
+
+def lattice_near_level_case(idx, tol):
+    """A lattice polygon with points a hair off every vertex level, x between the lattice columns."""
+    vs = [(float(LAT[i][0]), float(LAT[i][1])) for i in idx]
+    pts = []
+    for vy in sorted({v[1] for v in vs}):
+        for off in LEVEL_OFFSETS:
+            y = _off_level(vy, off)
+            pts += [(-0.25 + 0.5 * k, y) for k in range(8)]
+    return {"contour": vs, "points": pts, "tol": tol, "stream": "near-level lattice", "shape": f"n={len(vs)}"}
+
+
 # ----------------------------------------------------------------------------- corpus / replay
 def load_corpus():
     cases = []
@@ -534,7 +596,9 @@ def run(ctx: core.Ctx):
                 "half-integer points of [0,4]^2 x tolerances 0.001, 0.01 and 0.02 (predicate + correspondence; quick tier: 0.01 and 0.02 on all triangles and a seeded quarter of the rest) and 0 (correspondence only); "
                 "random stream: star / convex / comb / rectangle / triangle polygons with 3-12 real, quarter-snapped or decimal-snapped "
                 "vertices, both orientations, points uniform / level with a vertex / on a vertex / on an edge / around the band edge / "
-                "collinear beyond an edge end; a case = one (vertex sequence, tolerance) with all its points, distinct = distinct such "
+                "collinear beyond an edge end; near-level streams (every tier): for every random polygon (2 vertices) and a seeded sample of "
+                "lattice polygons (every vertex level) points whose y is 1 ulp, 1e-12, 1e-10, 1e-8 above / below the vertex level (never equal), "
+                "x left of / right of the outline, beside the vertex and between consecutive crossings; a case = one (vertex sequence, tolerance) with all its points, distinct = distinct such "
                 "pairs, non-trivial = all (each evaluates both loops on every point); evaluations = classifications")
     ctx.trusted_base += [
         "translator translate/gen_polygon.py (+ py2lean): per-edge decisions, return values, default tolerances of point_polygon_check; "
@@ -589,6 +653,25 @@ def run(ctx: core.Ctx):
             ctx.cases += len(c["points"]) - 1
 
     phase("corpus")
+    # ------------------------------------------------------------ points a hair off a vertex level (every tier)
+    # lattice sample: all sizes that exist on the lattice up to 6 vertices, seeded
+    nl_rng = random.Random(ctx.seed * 104729 + 16)
+    n_lat = 250 if ctx.tier == "quick" else 3000
+    nl_cases = []
+    tries = 0
+    while len(nl_cases) < n_lat and tries < 200 * n_lat:
+        tries += 1
+        s = tuple(nl_rng.sample(range(16), nl_rng.choice([3, 4, 4, 5, 6])))
+        if is_simple([LAT[i] for i in s]):
+            nl_cases.append(lattice_near_level_case(s, nl_rng.choice([TOL_DEFAULT, TOL_DEFAULT, TOL_CUTOUT])))
+    for st in core.pool_map(random_worker, _chunks(nl_cases, 64)):
+        _merge(total, st)
+    for c in nl_cases:
+        ctx.case(("near-level lattice", tuple(c["contour"]), c["tol"]), True)
+        ctx.cases += len(c["points"]) - 1
+    ctx.samples.append({"stream": "near-level lattice", "contour": nl_cases[0]["contour"], "tol": nl_cases[0]["tol"],
+                        "points": nl_cases[0]["points"][:3]})
+    phase("near-level lattice stream")
     # ------------------------------------------------------------ lattice stream (exhaustive)
     sizes = [3, 4] if ctx.tier == "quick" else [3, 4, 5, 6]
     lat_polys = []
@@ -637,10 +720,12 @@ def run(ctx: core.Ctx):
         pts = gen_points(rng, vs, tol, 40)
         cases.append({"contour": vs, "points": pts, "tol": tol, "stream": "random", "shape": f"{shape}/{mode}",
                       "use_default": tol == TOL_DEFAULT and j % 2 == 0, "cutout": j % 5 == 0})
+        cases.append({"contour": vs, "points": gen_near_level_points(rng, vs, 2), "tol": tol, "stream": "near-level random",
+                      "shape": f"{shape}/{mode}", "use_default": tol == TOL_DEFAULT and j % 2 == 1})
     for st in core.pool_map(random_worker, _chunks(cases, 64)):
         _merge(total, st)
     for c in cases:
-        ctx.case(("random", tuple(c["contour"]), c["tol"]), True)
+        ctx.case((c["stream"], tuple(c["contour"]), c["tol"]), True)
         ctx.cases += len(c["points"]) - 1
     ctx.samples.append({"stream": "random", **{k: cases[0][k] for k in ("contour", "tol", "shape")}, "points": cases[0]["points"][:3]})
 
